@@ -65,6 +65,11 @@ type c16Scenario struct {
 	// Store: every cache is small (8 entries) and persists into one shared badger directory
 	// (caches with the same store url share one store instance)
 	Store bool `json:"store,omitempty"`
+	// DetourMs > 0: after the last configuration has been applied, a detour configuration (the
+	// final one with another compress threshold on every server and an extra upstream whose
+	// health check is slow) is saved and, DetourMs later and without waiting for anything,
+	// the final configuration again
+	DetourMs int `json:"detourMs,omitempty"`
 }
 
 func subsetOf(t *rapid.T, label string, pool []string, min int) []string {
@@ -356,6 +361,9 @@ func mutateA(t *rapid.T, prev aConfig) aConfig {
 
 func genC16(t *rapid.T) c16Scenario {
 	sc := c16Scenario{Store: rapid.IntRange(0, 9).Draw(t, "store") < 4}
+	if rapid.IntRange(0, 9).Draw(t, "detour") < 4 {
+		sc.DetourMs = rapid.SampledFrom([]int{1, 20, 60, 100, 120, 150, 180, 220, 300}).Draw(t, "detourMs")
+	}
 	n := rapid.IntRange(2, 6).Draw(t, "nConfigs")
 	cur := genAConfig(t)
 	sc.Configs = append(sc.Configs, cur)
@@ -371,6 +379,8 @@ func genC16(t *rapid.T) c16Scenario {
 }
 
 var (
+	c16SlowOnce sync.Once
+	c16Slow     *echoUpstream
 	c16Once     sync.Once
 	c16Ups      []*echoUpstream
 	graceChecks int // the 10 s close grace of removed servers is waited for a bounded number of times per process
@@ -488,7 +498,7 @@ func battery(cl *http.Client, a aConfig, ports []int, tag string) map[string]str
 func filterReadded(sc c16Scenario) (c16Scenario, int) {
 	removed := map[int]bool{}
 	n := 0
-	res := c16Scenario{Store: sc.Store}
+	res := c16Scenario{Store: sc.Store, DetourMs: sc.DetourMs}
 	var prevSlots map[int]bool
 	for _, c := range sc.Configs {
 		c = cloneA(c)
@@ -725,6 +735,42 @@ func execC16raw(sc c16Scenario) *vstat.Outcome {
 		}
 	}
 	final := sc.Configs[len(sc.Configs)-1]
+	if sc.DetourMs > 0 {
+		c16SlowOnce.Do(func() {
+			c16Slow = newEchoUpstream("S")
+			c16Slow.healthDelay = 150 * time.Millisecond
+		})
+		detour := toPikeConfig(final, livePorts, liveStore)
+		for i := range detour.Servers {
+			detour.Servers[i].CompressMinLength = "7kb"
+		}
+		detour.Upstreams = append(detour.Upstreams, config.UpstreamConfig{Name: "detour", HealthCheck: "/health", Servers: []config.UpstreamServerConfig{{Addr: c16Slow.URL()}}})
+		dData, err1 := marshalConfig(detour)
+		fData, err2 := marshalConfig(toPikeConfig(final, livePorts, liveStore))
+		if err1 != nil || err2 != nil {
+			out.Inconclusive = true
+			return out
+		}
+		before := live.reloadCount()
+		if err := live.write(dData); err != nil {
+			out.Inconclusive = true
+			return out
+		}
+		time.Sleep(time.Duration(sc.DetourMs) * time.Millisecond)
+		if err := live.write(fData); err != nil {
+			out.Inconclusive = true
+			return out
+		}
+		if !live.settle(before, 800*time.Millisecond, 20*time.Second) {
+			if !live.alive() {
+				out.Violate("C16", "crash", "the live process exited during two saves %d ms apart; last output: %v", sc.DetourMs, tail(live.errorLines(), 5))
+				return out
+			}
+			out.Inconclusive = true
+			return out
+		}
+		out.Class("two_saves_in_quick_succession")
+	}
 	freshCfg, err := marshalConfig(toPikeConfig(final, freshPorts, freshStore))
 	if err != nil {
 		out.Inconclusive = true
